@@ -92,3 +92,38 @@ Definition recur_ok (ar : arity) (vs : list rval) (r : result rval) : Prop :=
 (** a recur form the analyzer accepts: as many expressions as the arity has parameters *)
 Definition recur_legal (ar : arity) (vs : list rval) : Prop :=
   match ar with AFix n => length vs = n | ARest m => length vs = S m end.
+
+(** [ar] is one of the arities of [s] *)
+Definition arity_of (s : sig) (ar : arity) : Prop :=
+  match ar with AFix n => In n (fixed s) | ARest m => variadic s = Some m end.
+
+(** Executable guards of the `_partial` theorems (the sub-domains on which the current code
+    meets the property). *)
+Definition is_iseq (v : rval) : bool := match v with VSeq _ | VInf => true | _ => false end.
+
+(** the current code re-binds correctly at every recur in a fixed arity, and in the variadic
+    arity when the last value is nil or a finite ISeq (open finding F-08e: a vector is wrapped
+    as one surplus argument, a lazy seq is realized completely, an infinite one never returns) *)
+Definition recur_safe (ar : arity) (vs : list rval) : bool :=
+  match ar with
+  | AFix _ => true
+  | ARest _ => match last vs VNil with VSeq _ | VNil => true | _ => false end
+  end.
+
+(** the guard that was needed BEFORE the repairs F-08a (nil) and F-08b (flag of the whole fn) *)
+Definition recur_safe_old (s : sig) (ar : arity) (vs : list rval) : bool :=
+  match ar with
+  | AFix _ => negb (is_variadic s) || negb (is_iseq (last vs VNil))
+  | ARest _ => match last vs VNil with VSeq _ => true | _ => false end
+  end.
+
+(** the integer members of the `arities` attribute of (partial f a1..ap): n is a member iff
+    p + n is a member for f *)
+Definition shift_counts (l : list nat) (p : nat) : list nat :=
+  map (fun a => a - p) (filter (fun a => p <=? a) l).
+
+(** BEFORE repair F-08c the `arities` attribute of (partial f a1..ap) was right only when p
+    was not itself an arity count of f and lay below the fixed count of the variadic arity *)
+Definition partial_report_ok (s : sig) (p : nat) : bool :=
+  negb (existsb (Nat.eqb p) (all_counts s))
+  && match variadic s with Some m => p <? m | None => true end.
